@@ -62,9 +62,9 @@ PROPS = {
         "explanation": "Theorems: decode_encode_data/meta/storable/decode_encode, reencode_fixpoint, flags_truthful, decode_rejects_trailing(_meta), storable_accepts_trailing. Tie: model-decode(Go bytes) = dump and Go-decode = model dump; header queries on raw bytes. Oracle: Encode(Decode(reg)) == reg, flags vs content.",
     },
     "C19": {
-        "streams": ["malformed"], "driver": {"malformed": "codec"}, "level": "proof",
+        "streams": ["malformed", "malformedall"], "driver": {"malformed": "codec"}, "level": "proof",
         "trusted_base": LEAN_TB, "assumptions": CODEC_ASSUME,
-        "rule": "bit flips, truncations at every length, splices, length-field and tag edits of valid registers of every kind and both versions (~22000 DecodeSlab calls, 6000 header queries, 4000 CBOR validator inputs per run); distinct = distinct byte strings",
+        "rule": "bit flips, truncations at every length, splices, length-field and tag edits of valid registers of every kind and both versions (~22000 DecodeSlab calls, 6000 header queries, 4000 CBOR validator inputs per run); PLUS, model-free: every truncation and 60 mutations of each of ~100 registers of ALL slab kinds (map data / index / collision-group slabs, inlined arrays and maps, wrappers, compact maps, large values) under recover + 2 s watchdog; distinct = distinct byte strings",
         "explanation": "Theorems: decode_never_panics (every Go slice expression / fixed-offset read / make is transcribed with its bounds condition; a violated condition is a distinct 'panic' outcome, proved unreachable for ALL byte strings), header_queries_total, alloc_linear (allocations <= input length), accessors_total; termination by structural recursion. Tie: outcome class (ok+dump / error / panic) equal on every mutated register. Oracle: recover + 2 s watchdog + ByteSize/ChildStorables on accepted slabs.",
     },
     "C09": {
@@ -169,7 +169,7 @@ PROPS = {
         "streams": ["iter", "array", "mapcollide"], "driver": {"iter": "iter", "array": "array", "mapcollide": "map"}, "level": "proof",
         "trusted_base": LEAN_TB, "assumptions": ARRAY_ASSUME + MAP_ASSUME + [
             "loaded-value iterators are parameterised by a predicate 'slab is loaded'; the harness reads the real loaded set from the storage's write set and cache (verif hooks)",
-            "map_ro_iter_eq_toList needs the sibling-link / slab-ID consistency predicate leafIdsOk (evaluated by the replayer on every iterated tree); map overwrite-during-iteration is proved relative to the in-place effect of Set on an existing key (hypothesis OverwriteInPlace)",
+            "map_ro_iter_eq_toList needs the sibling-link / slab-ID consistency predicate leafIdsOk (evaluated by the replayer on every iterated tree)",
             "mutating a NESTED container during mutable iteration is exercised by the stream's oracle and by C10's stream, not by a theorem"],
         "rule": "48 container programs per seed (arrays at T in {256,300,512,1024}, maps with real digests and four collision-table modes: inline groups, external groups, last-level lists spanning slab boundaries); per round: commit, 8 loaded subsets on fresh storages (nothing, everything, random, all-but-a-few, get paths, prefixes, the live handle), every iterator flavour on fresh and live handles with valid and invalid ranges, overwrite during mutable iteration, bulk pop; distinct = programs x rounds",
         "explanation": "Theorems: array read-only/mutable iteration = toList, range iteration = slice, invalid ranges rejected with the exact error kinds, loaded iteration with all slabs loaded = toList and with ANY loaded set a Sublist (for any tree), the Go iterator object = the structural traversal, pop = reverse, overwrite of the current element neither skips nor repeats; maps: getElementAndNextKey returns pair and successor, mutable / read-only / keys / values / loaded iterations = toList (canonical digest order), loaded subset is a Sublist, pop = reverse. Oracle: pairwise agreement of all flavours and with Get, exactly-once, digest order, in-order subsequence when partially loaded.",
